@@ -838,7 +838,9 @@ def rule_real_format(ctx):
         ctx.ob('W.realfmt', d, 'decoder field %s = %s' % (var, {'n': 'exponent length bits + 1', 'b': 'base bits (6-5)', 'sf': 'scale factor bits (4-3)'}[var]),
                ok, '`%s`' % norm(exprs[0]), node=exprs[0])
     src = [norm(s) for s in walk_own(d.node) if isinstance(s, ast.stmt)]
-    ok = any(isinstance(n, ast.If) and norm(n.test) == 'n == 4' and any(norm(s) == 'n = oct2int(chunk[0])' for s in n.body) for n in walk_own(d.node))
+    import re
+    ok = any(isinstance(n, ast.If) and norm(n.test) == 'n == 4' and any(re.fullmatch(r'n = oct2int\(\w+\[0\]\)', norm(s)) for s in n.body)
+             for n in walk_own(d.node))
     ctx.ob('W.realfmt', d, 'exponent length 4 means "next octet holds the length"', ok, '')
     scal = {}
     for n in walk_own(d.node):
